@@ -208,13 +208,19 @@ def run(ctx):
         plan += [("race:2-starts-empty+kill", 1), ("race:3-starts-empty", 0)]
     tear = "all" if ctx.thorough else "quick"
     per = {}
+    only = os.environ.get("VERIF_C19_ONLY")
+    if only:
+        plan = [(n, k) for n, k in plan if n in only.split(",")]
+    import time
     for name, kills in plan:
+        t0 = time.time()
         cap = None
         if name == "race:3-starts-empty":
             cap = 400000
         a = vsched.explore(ctx, FACTORY, name, max_kills=kills,
                            tear_mode=tear, max_states=cap)
         per[name] = {"states": a.counters["states"],
+                     "wall_s": round(time.time() - t0, 1),
                      "transitions": a.counters["transitions"],
                      "terminal": a.counters.get("terminal_executions", 0)}
         st = acc.counters.get("states", 0) + a.counters["states"]
